@@ -695,3 +695,162 @@ def rule_memo_key_complete(ctx: Ctx, rep: Report, rule: str, module_prefixes: tu
             rep.ob(rule, f"{q}:{x}", False, fi.where(i), f"`{norm(i.body[0])[:80]}` is kept across the loop over {sorted(tv)}, which it reads: every iteration after the first is answered the first one's value")
     rep.ob(rule, "scanned", True, "btclib:1", f"{n} functions in {module_prefixes}: no memo is kept across a loop whose variable it reads")
     rep.floor(rule, 2)
+
+
+LOOSE_ALIASES = {"Octets": "bytes", "String": "str", "Integer": "int", "BinaryData": "bytes", "PrvKey": "int", "Key": "bytes", "PubKey": "bytes"}
+STRICT = {"bytes", "int", "str"}
+
+
+def _ann_text(a: ast.AST | None) -> str:
+    return "" if a is None else str(norm(a)).replace(" ", "")
+
+
+def _rebound_before(fi: FuncInfo, name: str, at: ast.AST) -> bool:
+    """`name` is assigned somewhere before `at` (by line): what reaches `at` may be the converted form."""
+    for s_ in own_nodes(fi.node):
+        if isinstance(s_, (ast.Assign, ast.AnnAssign, ast.AugAssign)):
+            tg = s_.targets if isinstance(s_, ast.Assign) else [s_.target]
+            if any(isinstance(x, ast.Name) and x.id == name for t in tg for x in ast.walk(t)) and s_.lineno <= at.lineno:
+                return True
+        if isinstance(s_, (ast.For, ast.comprehension)) and any(isinstance(x, ast.Name) and x.id == name for x in ast.walk(s_.target)):
+            return True
+        if isinstance(s_, ast.NamedExpr) and s_.target.id == name:
+            return True
+    return False
+
+
+def rule_loose_to_strict(ctx: Ctx, rep: Report, rule: str, module_prefixes: tuple[str, ...], floor: int) -> None:
+    """The loose argument types (Octets = bytes or hex text, String = str or
+    bytes, Integer = int or octets or hex, ...) belong to the public surface; a
+    private helper annotated `bytes` / `int` / `str` takes the converted form.
+    A parameter of a loose type is therefore never handed *as it came* to a
+    btclib function whose parameter is strict: the hex spelling the docstring
+    accepts would be hashed as text, sized as characters, or be a TypeError."""
+    n = 0
+    for q, fi in sorted(ctx.prog.functions.items()):
+        if not any(q.startswith(p_) for p_ in module_prefixes):
+            continue
+        a = fi.node.args
+        loose = {p_.arg: _ann_text(p_.annotation) for p_ in a.posonlyargs + a.args + a.kwonlyargs
+                 if p_.annotation is not None and _ann_text(p_.annotation).split("|")[0] in LOOSE_ALIASES and "|" not in _ann_text(p_.annotation).replace("|None", "")}
+        if not loose:
+            continue
+        for c in own_nodes(fi.node):
+            if not isinstance(c, ast.Call) or any(isinstance(x, ast.Starred) for x in c.args):
+                continue
+            pairs: list[tuple[str, ast.AST]] = []
+            named = [(i, x) for i, x in enumerate(c.args) if isinstance(x, ast.Name) and x.id in loose] + [(k.arg, k.value) for k in c.keywords if k.arg and isinstance(k.value, ast.Name) and k.value.id in loose]
+            if not named:
+                continue
+            callee = ctx.prog.functions.get(ctx.resolve_call(fi, c) or "")
+            if callee is None or callee is fi:
+                continue
+            ca = callee.node.args
+            pos = ca.posonlyargs + ca.args
+            if pos and pos[0].arg in ("self", "cls"):
+                pos = pos[1:]
+            byname = {p_.arg: p_ for p_ in pos + ca.kwonlyargs}
+            for key, x in named:
+                tp = pos[key] if isinstance(key, int) and key < len(pos) else byname.get(key) if isinstance(key, str) else None
+                if tp is None or tp.annotation is None:
+                    continue
+                want = _ann_text(tp.annotation)
+                if want not in STRICT:
+                    continue
+                n += 1
+                ok = _rebound_before(fi, x.id, c)
+                rep.ob(rule, f"{q}->{callee.name}({x.id})", ok, fi.where(c), f"`{x.id}` was rebound to its converted form before the call" if ok else
+                       f"`{x.id}: {loose[x.id]}` is handed as it came to `{callee.name}({tp.arg}: {want})`: the other spellings `{loose[x.id].split('|')[0]}` admits are not {want}")
+    rep.ob(rule, "scanned", True, "btclib:1", f"{n} loose parameters handed to strict parameters in {module_prefixes}, each after its conversion")
+    rep.floor(rule, floor)
+
+
+_COERCION_SAMPLE = '''
+def f(script, n):
+    bytes_from_octets(script)
+    if script:
+        return g(script)
+'''
+
+
+def discarded_coercions(fn: ast.AST, params: set[str]) -> list[ast.Expr]:
+    out = []
+    for st in own_nodes(fn):
+        if isinstance(st, ast.Expr) and isinstance(st.value, ast.Call) and st.value.args and isinstance(st.value.args[0], ast.Name) and st.value.args[0].id in params:
+            nm = call_name(st.value) or ""
+            if "_from_" not in nm or nm.startswith("assert"):
+                continue
+            p_ = st.value.args[0].id
+            later = any(isinstance(x, ast.Name) and x.id == p_ and isinstance(x.ctx, ast.Load) and x.lineno > st.lineno for x in own_nodes(fn))
+            if later:
+                out.append(st)
+    return out
+
+
+def rule_coercion_used(ctx: Ctx, rep: Report, rule: str, module_prefixes: tuple[str, ...]) -> None:
+    """A conversion (`bytes_from_octets`, `str_from_string`, `..._from_...`) is
+    called for its value: a call whose answer is dropped, the raw parameter
+    being read afterwards, checked one spelling and then computed with another
+    -- hex text that converts to an empty script is still a truthy string."""
+    from sa.loader import _set_parents
+    sample = ast.parse(_COERCION_SAMPLE)
+    _set_parents(sample)
+    rep.ob(rule, "selftest:sample", len(discarded_coercions(sample.body[0], {"script", "n"})) == 1, "rules/sigcommon.py:1", "the detector fires on its own sample (expected count on the tree is zero)")
+    n = 0
+    for q, fi in sorted(ctx.prog.functions.items()):
+        if not any(q.startswith(p_) for p_ in module_prefixes):
+            continue
+        n += 1
+        for st in discarded_coercions(fi.node, set(fi.params())):
+            rep.ob(rule, f"{q}:{norm(st)[:50]}", False, fi.where(st), f"`{norm(st)[:70]}` converts and drops the answer, and `{st.value.args[0].id}` is read raw afterwards")
+    rep.ob(rule, "scanned", True, "btclib:1", f"{n} functions in {module_prefixes}: every conversion of a parameter that is read again is kept")
+    rep.floor(rule, 2)
+
+
+_TEXT_SAMPLE = '''
+def f(addr: String):
+    s = "".join(str_from_string(addr, "address").split())
+    return decode(s)
+'''
+
+
+def inner_text_edits(ctx: Ctx | None, fn: ast.AST) -> list[ast.Call]:
+    """Calls that take characters out of the *inside* of a text derived from a String parameter."""
+    a = fn.args
+    sp = {p_.arg for p_ in a.posonlyargs + a.args + a.kwonlyargs if p_.annotation is not None and _ann_text(p_.annotation).split("|")[0] == "String"}
+    if not sp:
+        return []
+    derived = set(sp)
+    for _ in range(3):
+        for s_ in own_nodes(fn):
+            if isinstance(s_, ast.Assign) and {x.id for x in ast.walk(s_.value) if isinstance(x, ast.Name)} & derived:
+                derived |= {t.id for t in s_.targets if isinstance(t, ast.Name)}
+    out = []
+    for c in own_nodes(fn):
+        if isinstance(c, ast.Call) and isinstance(c.func, ast.Attribute) and c.func.attr in ("split", "replace", "translate", "splitlines", "removeprefix", "removesuffix", "lstrip", "rstrip") \
+                and {x.id for x in ast.walk(c.func.value) if isinstance(x, ast.Name)} & derived:
+            if c.func.attr in ("lstrip", "rstrip") and not c.args:
+                continue
+            out.append(c)
+    return out
+
+
+def rule_text_admission(ctx: Ctx, rep: Report, rule: str, modules: tuple[str, ...], floor: int) -> None:
+    """An address is the characters of its encoding: what reaches the decoder is
+    the argument with, at most, the blanks around it removed (`.strip()`) --
+    never with characters taken out of its inside (`split`, `replace`,
+    `translate`, a prefix removed). "bc1q... ...xyz" with a blank in the middle
+    is not an address; joined up, it decodes as one the sender never wrote."""
+    from sa.loader import _set_parents
+    sample = ast.parse(_TEXT_SAMPLE)
+    _set_parents(sample)
+    rep.ob(rule, "selftest:sample", len(inner_text_edits(None, sample.body[0])) == 1, "rules/sigcommon.py:1", "the detector fires on its own sample (expected count on the tree is zero)")
+    n = 0
+    for q, fi in sorted(ctx.prog.functions.items()):
+        if fi.module.name not in modules:
+            continue
+        n += 1
+        for c in inner_text_edits(ctx, fi.node):
+            rep.ob(rule, f"{q}:{norm(c)[:50]}", False, fi.where(c), f"`{norm(c)[:70]}` edits the inside of the text it was handed before decoding it")
+    rep.ob(rule, "scanned", True, "btclib:1", f"{n} functions of {modules}: a String argument reaches the decoder with nothing but its ends trimmed")
+    rep.floor(rule, floor)
